@@ -1,11 +1,13 @@
 // C11 sequential driver: the real babylon::Serialization templates instantiated on a fixed family of types.
 // stdin, one case per line (values/types in the syntax of ocaml/se_driver.ml):
-//   <id> V <type> <u> <value> ; <model hex>   serialize a typed value, parse it back through every presentation
-//   <id> D <type> <u> <hex>                   parse arbitrary bytes (u=1: only the unlimited stream presentation)
+//   <id> V <type> <pmask> <value> ; <model hex>  serialize a typed value, parse it back through the presentations
+//   <id> D <type> <pmask> <hex>               parse arbitrary bytes (flat array, plus the presentations in pmask)
+//        presentations: 0 flat array, 1 string, 2 stream of 1-byte chunks, 3 stream of random chunks,
+//        4 stream of random chunks under an enclosing limit, 5 stream of 3-byte chunks (2, 3, 5: no limit)
 //   <id> R <type> <value1> ; <value2>         serialize, overwrite the same object in place, serialize again
 //   <id> C <mask> <seed> <value of CObj>      protobuf interoperability against the generated message c11::CMsg
 // stdout: "<id> key=value ... | monitor=0/1 ..." ; the check script compares with the model and judges.
-// With C11_PROBE=1 the process limits its address space and arms an alarm (cases the model predicts to hang).
+// The process limits its address space (unless C11_NO_RLIMIT) and arms an alarm per case: some inputs never return.
 #include "babylon/serialization.h"
 
 #include "c11_compat.pb.h"
@@ -489,14 +491,14 @@ static uint64_t hash_id(const std::string& s) {
 // ------------------------------------------------------------------ operations
 struct OpsBase {
   virtual ~OpsBase() {}
-  virtual void run_v(const std::string& id, bool unl, Tok& k) = 0;
-  virtual void run_d(const std::string& id, bool unl, const std::string& bytes) = 0;
+  virtual void run_v(const std::string& id, unsigned pmask, Tok& k) = 0;
+  virtual void run_d(const std::string& id, unsigned pmask, const std::string& bytes) = 0;
   virtual void run_r(const std::string& id, Tok& k) = 0;
 };
 
 template <typename T>
 struct Ops : public OpsBase {
-  void run_v(const std::string& id, bool unl, Tok& k) override {
+  void run_v(const std::string& id, unsigned pmask, Tok& k) override {
     std::unique_ptr<T> x(new T {});
     IO<T>::build(k, *x);
     k.next();  // ;
@@ -517,18 +519,14 @@ struct Ops : public OpsBase {
     }
     uint64_t seed = hash_id(id);
     printf("%s ser=%s serok=%d pred=%zu val=%s", id.c_str(), hex(ser).c_str(), serok ? 1 : 0, pred, show(*x).c_str());
-    for (int p = P_ARRAY; p <= P_CHUNKLIM; ++p) printf(" p%d=%s", p, parse_show<T>(p, ser, seed).c_str());
-    if (unl) printf(" pu=%s", parse_show<T>(P_UNLIMITED, ser, seed).c_str());
+    for (int p = P_ARRAY; p <= P_UNLIMITED; ++p)
+      if ((pmask >> p) & 1) printf(" p%d=%s", p, parse_show<T>(p, ser, seed).c_str());
     printf(" pm=%s", parse_show<T>(P_ARRAY, model_bytes, seed).c_str());
     printf(" | mon_size=%d mon_routes=%d\n", (serok && pred == ser.size()) ? 1 : 0,
            (serok2 && ser2 == ser && ser3 == ser) ? 1 : 0);
   }
-  void run_d(const std::string& id, bool unl, const std::string& bytes) override {
+  void run_d(const std::string& id, unsigned pmask, const std::string& bytes) override {
     uint64_t seed = hash_id(id);
-    if (unl) {
-      printf("%s res=%s |\n", id.c_str(), parse_show<T>(P_UNLIMITED, bytes, seed).c_str());
-      return;
-    }
     std::unique_ptr<T> y(new T {});
     bool ok = parse_as(P_ARRAY, bytes, *y, seed);
     if (!ok) {
@@ -542,8 +540,9 @@ struct Ops : public OpsBase {
       printf("%s res=1:%s reser=%s resize=%zu serok=%d re=%s", id.c_str(), v.c_str(), hex(reser).c_str(), pred,
              serok ? 1 : 0, re.c_str());
     }
-    for (int p = P_STRING; p <= P_CHUNKLIM; ++p) printf(" p%d=%s", p, parse_show<T>(p, bytes, seed).c_str());
-    printf(" |\n");
+    for (int p = P_STRING; p <= P_UNLIMITED; ++p)
+      if ((pmask >> p) & 1) printf(" p%d=%s", p, parse_show<T>(p, bytes, seed).c_str());
+    printf(" | returned=1\n");
   }
   void run_r(const std::string& id, Tok& k) override {
     std::unique_ptr<T> x(new T {});
@@ -711,12 +710,14 @@ static void run_c(const std::string& id, uint32_t mask, uint64_t seed, Tok& k) {
 
 // ------------------------------------------------------------------ main
 int main() {
-  if (getenv("C11_PROBE") != nullptr) {
+  // a parser that loops without progress must not take the machine down: bounded address space (not under
+  // ASan, which reserves terabytes: there ASAN_OPTIONS=hard_rss_limit_mb does it) and a per-case alarm
+  if (getenv("C11_NO_RLIMIT") == nullptr) {
     struct rlimit rl;
-    rl.rlim_cur = rl.rlim_max = 700ull << 20;
+    rl.rlim_cur = rl.rlim_max = 1024ull << 20;
     setrlimit(RLIMIT_AS, &rl);
-    alarm(8);
   }
+  unsigned alarm_s = getenv("C11_ALARM") != nullptr ? (unsigned)atoi(getenv("C11_ALARM")) : 8;
   std::map<std::string, OpsBase*> types;
 #define REG(name, ...) types[name] = new Ops<__VA_ARGS__>();
   REG("b", bool)
@@ -766,6 +767,7 @@ int main() {
     Tok k;
     for (char* p = strtok(line, " \t\r\n"); p != nullptr; p = strtok(nullptr, " \t\r\n")) k.t.emplace_back(p);
     if (k.t.size() < 2) continue;
+    alarm(alarm_s);
     std::string id = k.next();
     std::string op = k.next();
     if (op == "C") {
@@ -777,11 +779,11 @@ int main() {
       if (it == types.end()) {
         printf("%s ERROR unknown-type\n", id.c_str());
       } else if (op == "V") {
-        bool unl = k.next() == "1";
-        it->second->run_v(id, unl, k);
+        unsigned pmask = (unsigned)strtoul(k.next().c_str(), nullptr, 10);
+        it->second->run_v(id, pmask, k);
       } else if (op == "D") {
-        bool unl = k.next() == "1";
-        it->second->run_d(id, unl, unhex(k.next()));
+        unsigned pmask = (unsigned)strtoul(k.next().c_str(), nullptr, 10);
+        it->second->run_d(id, pmask, unhex(k.next()));
       } else if (op == "R") {
         it->second->run_r(id, k);
       } else {
